@@ -244,6 +244,73 @@ pub fn case(rng: &mut Rng, max_objects: usize) -> String {
         Ok(None) => head,
         Err(e) => head.str("panic_mode_specific", &panic_msg(e)),
     };
+    // a Difficulty that already carries passed_objects(k): whatever len() the calculator announces,
+    // it must follow the protocol relative to that announcement, and every value is the one-shot
+    // result for the position reached
+    let head = if rng.chance(1, 2) {
+        let k = match rng.below(4) {
+            0 => 0,
+            1 => rng.below(4),
+            2 => total + rng.below(3),
+            _ => rng.below(total + 1),
+        } as u32;
+        let d2 = d.clone().passed_objects(k);
+        let ops = gen_pops(rng, total, states.len());
+        let res = catch_unwind(AssertUnwindSafe(|| {
+            let mut g = GradualPerformance::new_with_mode(d2.clone(), &map, mode_of(target)).ok()?;
+            let len0 = g.len() as u64;
+            let mut p: u64 = 0;
+            let mut outs = Vec::new();
+            for op in &ops {
+                let (sid, n) = match *op {
+                    POp::Next(s) => (s, 0),
+                    POp::Nth(s, n) => (s, n),
+                    POp::Last(s) => (s, u64::MAX),
+                };
+                let state = states[sid].clone();
+                let r = match *op {
+                    POp::Next(_) => g.next(state.clone()),
+                    POp::Nth(_, n) => g.nth(state.clone(), usize::try_from(n).unwrap_or(usize::MAX)),
+                    POp::Last(_) => g.last(state.clone()),
+                };
+                let len_after = g.len() as u64;
+                let step = n.saturating_add(1).min(len0.saturating_sub(p));
+                p += step;
+                let o = Obj::new().raw("len", len_after).raw("p", p);
+                outs.push(match r {
+                    None => o.raw("some", false).done(),
+                    Some(a) => {
+                        let got = a.json();
+                        let want = oneshot(&map, target, &d2, p, &state);
+                        if got == want {
+                            o.raw("some", true).raw("eq", true).done()
+                        } else {
+                            o.raw("some", true).raw("eq", false).raw("got", got).raw("want", want).done()
+                        }
+                    }
+                });
+            }
+            Some((len0, outs))
+        }));
+        let s = Obj::new().raw("k", k).raw(
+            "ops",
+            arr(ops.iter().map(|o| match o {
+                POp::Next(s) => format!("[\"next\",{s}]"),
+                POp::Nth(s, n) => format!("[\"nth\",{s},{n}]"),
+                POp::Last(s) => format!("[\"last\",{s}]"),
+            })),
+        );
+        head.raw(
+            "preset",
+            match res {
+                Ok(Some((len0, outs))) => s.raw("len0", len0).raw("outs", arr(outs)).done(),
+                Ok(None) => s.str("error", "constructor failed").done(),
+                Err(e) => s.str("panic", &panic_msg(e)).done(),
+            },
+        )
+    } else {
+        head
+    };
     head.raw("states", arr(states.iter().map(state_json)))
         .raw("seqs", arr(seqs))
         .done()
